@@ -12,7 +12,7 @@ From Coq Require Import List Bool String.
 From UV.Base Require Import Cop Res.
 From UV.Gen Require Import Tables.
 From UV.Py Require Import PyStr.
-From UV.Schemes Require Import Common Generic LegacyOpenssl Semver SemverProofs Gem GemProofs Rpm RpmProofs Debian DebianProofs DebianHash Arch ArchProofs Openssl.
+From UV.Schemes Require Import Common Generic LegacyOpenssl Semver SemverProofs Gem GemProofs Rpm RpmProofs Debian DebianProofs DebianHash Arch ArchProofs Openssl Pypi.
 Import ListNotations.
 
 Lemma all_vclasses_complete c : In c all_vclasses.
@@ -75,6 +75,10 @@ Theorem C12_openssl_equal_versions_hash_alike :
   forall a b, ossl_ok a = true -> ossl_ok b = true -> o_eq (ossl_ops a b) = true -> ossl_hasheq a b = true.
 Proof. exact ossl_eq_hash. Qed.
 
+(* pypi: == and the hash both come from the comparison key *)
+Theorem C12_pypi_equal_versions_hash_alike : forall a b, o_eq (pypi_ops a b) = true -> pypi_hasheq a b = true.
+Proof. exact pypi_eq_hash. Qed.
+
 Print Assumptions C12_every_version_class_is_hashable_and_frozen.
 Print Assumptions C12_containers_hash_what_they_compare.
 Print Assumptions C12_generic_equal_versions_hash_alike.
@@ -85,3 +89,4 @@ Print Assumptions C12_rpm_equal_versions_hash_alike.
 Print Assumptions C12_deb_equal_versions_hash_alike.
 Print Assumptions C12_alpm_equal_versions_hash_alike.
 Print Assumptions C12_openssl_equal_versions_hash_alike.
+Print Assumptions C12_pypi_equal_versions_hash_alike.
